@@ -28,7 +28,8 @@ def plan(tier):
             "required_classes": ["qn-one", "qn-two", "sector:extreme", "op:add", "op:compress-truncating", "op:compress-limit-1",
                                  "op:apply-charged", "op:conj_trans-apply", "op:canonicalise-stop", "op:dmrg-1site", "op:dmrg-2site",
                                  "op:evolve", "op:evolve-imag", "op:mpdm", "operator-labels", "tree", "op:dmrg-tree",
-                                 "tree-scheme:tdvp_ps2", "tree-scheme:tdvp_vmf", "sector:zero-with-signed-labels"],
+                                 "tree-scheme:tdvp_ps2", "tree-scheme:tdvp_vmf", "sector:zero-with-signed-labels",
+                                 "state:equal-weight-sum-of-basis-states"],
             "required_counters": {"label_checks": 2000, "sector_checks": 1500, "tree_sector_checks": 100}}
     if tier == "quick":
         base.update({"ncases": 240, "min_nontrivial": 50})
@@ -155,6 +156,26 @@ def run_case(ctx):
         if not w.state(mps, qntot, "constructor"):
             return
         pool.append(mps)
+    if rng.random() < 0.3:
+        # equal-weight sum of two basis states of the sector: Schmidt values that are bitwise equal in DIFFERENT symmetry
+        # blocks (a Bell pair across the bonds where the two product states differ), then a lossless compression
+        pa = ctx.lib(states.product_mps, rng, gm, model, qntot, superpose=False, what="product-state", promised=False)
+        pb = ctx.lib(states.product_mps, rng, gm, model, qntot, superpose=False, what="product-state", promised=False)
+        pb.move_qnidx(pa.qnidx)
+        pb.to_right = pa.to_right
+        bell = ctx.lib(pa.add, pb, what="add")
+        if np.linalg.norm(bell.todense()) > 1e-8:
+            bell.compress_config = lossless()
+            ctx.cls("state:equal-weight-sum-of-basis-states")
+            if w.state(bell, qntot, "add(equal-weights)"):
+                cp = bell.copy()
+                ctx.lib(cp.ensure_right_canonical if rng.random() < 0.5 else cp.ensure_left_canonical, what="ensure_canonical")
+                w.state(cp, qntot, "ensure_canonical(equal-weights)")
+                ctx.lib(cp.compress, what="compress(lossless)")
+                w.state(cp, qntot, "compress(lossless,equal-weights)")
+                ctx.close(states.dense_of(cp), states.dense_of(bell), 1e-10, "compress(lossless,equal-weights)|object-changed",
+                          scale=max(float(np.linalg.norm(states.dense_of(bell))), 1e-300))
+            pool.append(bell)
     nblocks = max(len({tuple(x) for x in np.asarray(q).tolist()}) for q in pool[0].qn)
     changed = False
     zero = np.zeros(gm.qn_size, dtype=int)
